@@ -116,7 +116,7 @@ def read_asdf(fn, load=None, colname=None, dtype=np.float32, verbose=True, **kwa
         # determine subsample fraction and add to header
         OutputType = header.get('OutputType', None)
         if OutputType == 'LightCone':
-            if header['SimSet'] == 'AbacusSummit':
+            if header.get('SimSet', None) == 'AbacusSummit':
                 SubsampleFraction = (
                     header['ParticleSubsampleA'] + header['ParticleSubsampleB']
                 )
@@ -209,4 +209,19 @@ def _resolve_columns(colname, load, kwargs):
             load += ['vel']
         if 'pid' in colname:
             load += ['pid']
+
+    # Only columns that can be decoded from this raw column may be requested;
+    # anything else would come back unfilled, dropped, or with zero rows
+    loadable = None
+    if colname in ('pack9', 'rvint'):
+        loadable = ('pos', 'vel')
+    elif 'pid' in colname:
+        loadable = ('pid', 'lagr_pos', 'tagged', 'density', 'lagr_idx', 'aux')
+    if loadable is not None:
+        bad = [c for c in load if c not in loadable]
+        if bad:
+            raise ValueError(
+                f'Columns {bad} cannot be loaded from "{colname}" data; '
+                f'valid columns are {loadable}'
+            )
     return tuple(load)
